@@ -1,5 +1,367 @@
-From Coq Require Import List.
-From MV Require Import Common.Num Pure.Collapse Pure.Collapse_Proofs.
+(* C11 - Dimensional collapse is detected per definition, applied exactly, reported once.
+   Only statements, each closed by [exact] of a lemma proved in Pure/Collapse_Proofs.v.
+   Model: Pure/Collapse.v (collapse_at/as/weight/position over the look-back window of a recorded history, all mask
+   formats, mask.update_mask, the Collapse* termination wrappers, constraints.impose_at / impose_as with tools.connected,
+   composition of collapse rounds onto the constraints, the collapse loop of AbstractSolver._Solve).
+   [N] is any numeric instance (binary64 in the correspondence runs); order facts assume a strict weak order without NaN;
+   the two spread (max - min) characterisations are over the reals.  collapse_cost is not modelled (oracle only). *)
+From Coq Require Import List ZArith Bool Arith Reals QArith.
+From MV Require Import Common.Num Common.Order Common.NumR Pure.Collapse Pure.Collapse_Proofs.
+Import ListNotations.
+Open Scope nat_scope.
+
+(* ---------------------------------------------------------------- the look-back window: _solutions(monitor, last) *)
+Theorem C11_window_None_is_whole_history : forall (A : Type) (l : list A), window None l = l.
+Proof. exact @window_None. Qed.
+Print Assumptions C11_window_None_is_whole_history.
+
+Theorem C11_window_zero_is_whole_history : forall (A : Type) (l : list A), window (Some 0%Z) l = l.
+Proof. exact @window_zero. Qed.
+Print Assumptions C11_window_zero_is_whole_history.
+
+Theorem C11_window_last_g : forall (A : Type) (g : nat) (l : list A), 0 < g -> window (Some (Z.of_nat g)) l = skipn (length l - g) l.
+Proof. exact @window_pos. Qed.
+Print Assumptions C11_window_last_g.
+
+Theorem C11_window_longer_than_history : forall (A : Type) (g : nat) (l : list A), length l <= g -> window (Some (Z.of_nat g)) l = l.
+Proof. exact @window_longer. Qed.
+Print Assumptions C11_window_longer_than_history.
+
+(* ---------------------------------------------------------------- detector_is_definition: result = {i | test i} \ mask *)
+Theorem C11_detector_is_definition_at :
+  forall (N : Num) (hist : list (list (T N))) (tg : target N) (tol : T N) (g : option Z) (mask : mask_at) (r : list nat),
+  collapse_at N hist tg tol g mask = Ok r ->
+  forall i, In i r <->
+    (i < ncols N (window g hist) /\ test_at N tg tol (window g hist) i = true /\ ~ In i (mask_at_list mask)).
+Proof. exact collapse_at_is_definition. Qed.
+Print Assumptions C11_detector_is_definition_at.
+
+(* the inputs the real code rejects (bad masks, empty window, target list of the wrong length) and how *)
+Theorem C11_collapse_at_rejections :
+  forall (N : Num) (hist : list (list (T N))) (tg : target N) (tol : T N) (g : option Z) (mask : mask_at),
+  match collapse_at N hist tg tol g mask with
+  | Err ErrType => mask = MaNotSet
+  | Err ErrValue => mask = MaBadElem \/ window g hist = [] \/
+                    (exists ts, tg = TList ts /\ length ts <> ncols N (window g hist))
+  | Err ErrIndex => False
+  | Ok _ => (mask = MaNone \/ exists m, mask = MaSet m) /\ window g hist <> []
+  end.
+Proof. exact collapse_at_errors. Qed.
+Print Assumptions C11_collapse_at_rejections.
+
+Theorem C11_detector_is_definition_as :
+  forall (N : Num) (hist : list (list (T N))) (off : bool) (tol : T N) (g : option Z) (mask : mask_as) (r : list (nat * nat)),
+  collapse_as N hist off tol g mask = Ok r ->
+  forall i j, In (i, j) r <->
+    (i < j /\ j < ncols N (window g hist) /\ test_as N off tol (window g hist) (i, j) = true /\
+     masked_as (mask_as_list mask) (i, j) = false).
+Proof. exact collapse_as_is_definition. Qed.
+Print Assumptions C11_detector_is_definition_as.
+
+(* what a CollapseAs mask element masks: an index masks every pair containing it, a pair masks itself in both orientations *)
+Theorem C11_as_mask_meaning : forall (m : list melem) (p : nat * nat),
+  masked_as m p = true <->
+  exists e, In e m /\ match e with MInt k => k = fst p \/ k = snd p | MPair a b => (a, b) = p \/ (a, b) = swap p end.
+Proof. exact masked_as_meaning. Qed.
+Print Assumptions C11_as_mask_meaning.
+
+Theorem C11_collapse_as_rejections :
+  forall (N : Num) (hist : list (list (T N))) (off : bool) (tol : T N) (g : option Z) (mask : mask_as),
+  match collapse_as N hist off tol g mask with
+  | Err ErrType => mask = MsNotSet
+  | Err ErrValue => mask = MsBadElem \/ window g hist = []
+  | Err ErrIndex => False
+  | Ok _ => (mask = MsNone \/ exists m, mask = MsSet m) /\ window g hist <> []
+  end.
+Proof. exact collapse_as_errors. Qed.
+Print Assumptions C11_collapse_as_rejections.
+
+Theorem C11_detector_is_definition_weight :
+  forall (N : Num) (hist : list (list (T N))) (npts : list nat) (tol : T N) (g : option Z) (mask : mask_m nat) f r,
+  collapse_weight N hist npts tol g mask = Ok (f, r) ->
+  exists m0 w, measures N true npts hist g = Ok (m0 :: w) /\ f = mask_m_fmt mask /\
+    forall e, In e r <-> (In e (cells N m0) /\ test_weight N tol (m0 :: w) e = true /\ ~ In e (mask_m_list mask)).
+Proof. exact collapse_weight_is_definition. Qed.
+Print Assumptions C11_detector_is_definition_weight.
+
+Theorem C11_detector_is_definition_position :
+  forall (N : Num) (hist : list (list (T N))) (npts : list nat) (tol : T N) (g : option Z) (mask : mask_m (nat * nat)) f r,
+  collapse_position N hist npts tol g mask = Ok (f, r) ->
+  exists m0 w, measures N false npts hist g = Ok (m0 :: w) /\ f = mask_m_fmt mask /\
+    forall e, In e r <-> (In e (pcells N m0) /\ test_position N tol (m0 :: w) e = true /\
+                          ~ In e (mask_m_list mask) /\ ~ In (fst e, swap (snd e)) (mask_m_list mask)).
+Proof. exact collapse_position_is_definition. Qed.
+Print Assumptions C11_detector_is_definition_position.
+
+(* ---------------------------------------------------------------- the tolerance tests are the documented definitions *)
+(* any numeric instance whose ltb is a strict weak order and leb = not (flipped ltb): floats without NaN, Q, R *)
+Theorem C11_test_at_target_meaning :
+  forall (N : Num), StrictWeak (T N) (ltb N) -> (forall x y, Num.leb N x y = negb (ltb N y x)) ->
+  forall (t tol : T N) (w : list (list (T N))) (i : nat), w <> [] ->
+  (test_at N (TScalar t) tol w i = true <->
+   forall r, In r w -> Num.leb N (abs N (sub N (nth i r (zero N)) t)) tol = true).
+Proof. exact test_at_scalar_meaning. Qed.
+Print Assumptions C11_test_at_target_meaning.
+
+Theorem C11_test_at_target_list_meaning :
+  forall (N : Num), StrictWeak (T N) (ltb N) -> (forall x y, Num.leb N x y = negb (ltb N y x)) ->
+  forall (ts : list (T N)) (tol : T N) (w : list (list (T N))) (i : nat), w <> [] ->
+  (test_at N (TList ts) tol w i = true <->
+   forall r, In r w -> Num.leb N (abs N (sub N (nth i r (zero N)) (nth i ts (zero N)))) tol = true).
+Proof. exact test_at_list_meaning. Qed.
+Print Assumptions C11_test_at_target_list_meaning.
+
+Theorem C11_test_as_tied_meaning :
+  forall (N : Num), StrictWeak (T N) (ltb N) -> (forall x y, Num.leb N x y = negb (ltb N y x)) ->
+  forall (tol : T N) (w : list (list (T N))) (p : nat * nat), w <> [] ->
+  (test_as N false tol w p = true <-> forall r, In r w -> Num.leb N (dist N p r) tol = true).
+Proof. exact test_as_tied_meaning. Qed.
+Print Assumptions C11_test_as_tied_meaning.
+
+Theorem C11_test_weight_meaning :
+  forall (N : Num), StrictWeak (T N) (ltb N) -> (forall x y, Num.leb N x y = negb (ltb N y x)) ->
+  forall (tol : T N) (w : list (list (list (T N)))) (e : nat * nat), w <> [] ->
+  (test_weight N tol w e = true <-> forall ms, In ms w -> Num.leb N (nth (snd e) (nth (fst e) ms []) (zero N)) tol = true).
+Proof. exact test_weight_meaning. Qed.
+Print Assumptions C11_test_weight_meaning.
+
+Theorem C11_test_position_meaning :
+  forall (N : Num), StrictWeak (T N) (ltb N) -> (forall x y, Num.leb N x y = negb (ltb N y x)) ->
+  forall (tol : T N) (w : list (list (list (T N)))) (e : nat * (nat * nat)), w <> [] ->
+  (test_position N tol w e = true <-> forall ms, In ms w -> Num.leb N (dist N (snd e) (nth (fst e) ms [])) tol = true).
+Proof. exact test_position_meaning. Qed.
+Print Assumptions C11_test_position_meaning.
+
+(* target=None: max - min over the window <= tolerance  <->  no two generations of the window differ by more (reals) *)
+Theorem C11_test_at_spread_meaning_R : forall (tol : R) (w : list (list R)) (i : nat), w <> [] ->
+  (test_at NumR TNone tol w i = true <-> forall r s, In r w -> In s w -> (nth i r 0 - nth i s 0 <= tol)%R).
+Proof. exact test_at_none_meaning_R. Qed.
+Print Assumptions C11_test_at_spread_meaning_R.
+
+Theorem C11_test_as_offset_meaning_R : forall (tol : R) (w : list (list R)) (p : nat * nat), w <> [] ->
+  (test_as NumR true tol w p = true <-> forall r s, In r w -> In s w -> (dist NumR p r - dist NumR p s <= tol)%R).
+Proof. exact test_as_offset_meaning_R. Qed.
+Print Assumptions C11_test_as_offset_meaning_R.
+
+(* the order hypotheses above are satisfiable (non-vacuity): the reals meet them *)
+Example C11_order_hypotheses_satisfiable : StrictWeak R (ltb NumR) /\ (forall x y, Num.leb NumR x y = negb (ltb NumR y x)).
+Proof. exact (conj NumR_sw NumR_leb_def). Qed.
+
+(* ---------------------------------------------------------------- detector_idempotent_under_own_mask *)
+Theorem C11_detector_idempotent_under_own_mask_at :
+  forall (N : Num) hist (tg : target N) tol g mask r,
+  collapse_at N hist tg tol g mask = Ok r ->
+  collapse_at N hist tg tol g (MaSet (extend_mask (mask_at_list mask) r)) = Ok [].
+Proof. exact collapse_at_idempotent_under_own_mask. Qed.
+Print Assumptions C11_detector_idempotent_under_own_mask_at.
+
+Theorem C11_detector_idempotent_under_own_mask_as :
+  forall (N : Num) hist off tol g mask r,
+  collapse_as N hist off tol g mask = Ok r ->
+  collapse_as N hist off tol g (MsSet (extend_mask (mask_as_list mask) (as_mask_of r))) = Ok [].
+Proof. exact collapse_as_idempotent_under_own_mask. Qed.
+Print Assumptions C11_detector_idempotent_under_own_mask_as.
+
+Theorem C11_detector_idempotent_under_own_mask_weight :
+  forall (N : Num) hist npts tol g mask f r,
+  collapse_weight N hist npts tol g mask = Ok (f, r) ->
+  collapse_weight N hist npts tol g (MmMask f (extend_mask (mask_m_list mask) r)) = Ok (f, []).
+Proof. exact collapse_weight_idempotent_under_own_mask. Qed.
+Print Assumptions C11_detector_idempotent_under_own_mask_weight.
+
+Theorem C11_detector_idempotent_under_own_mask_position :
+  forall (N : Num) hist npts tol g mask f r,
+  collapse_position N hist npts tol g mask = Ok (f, r) ->
+  collapse_position N hist npts tol g (MmMask f (extend_mask (mask_m_list mask) r)) = Ok (f, []).
+Proof. exact collapse_position_idempotent_under_own_mask. Qed.
+Print Assumptions C11_detector_idempotent_under_own_mask_position.
+
+(* ---------------------------------------------------------------- mask_grows_by_applied *)
+(* mask._extend_mask on the canonical entry lists (set.update / per-key dict update / tuple concatenation / replace-if-falsy) *)
 Theorem C11_mask_grows_by_applied : forall (A : Type) (old new : list A) x, In x (extend_mask old new) <-> In x old \/ In x new.
 Proof. exact @extend_mask_In. Qed.
 Print Assumptions C11_mask_grows_by_applied.
+
+(* mask._update_masks over a termination tree of any shape: docs are kept, every leaf's mask is untouched or extended by
+   exactly the applied collapse; the reporting leaf inside Or(...) and a bare reporting leaf ARE extended *)
+Theorem C11_update_masks_grows : forall (M : Type) (ext : M -> M -> M) (c : cond M) kind new,
+  Forall2 (leaf_step M ext new) (leaves c) (leaves (update_masks ext c kind new)).
+Proof. exact update_masks_grows. Qed.
+Print Assumptions C11_update_masks_grows.
+
+Theorem C11_update_masks_hits_reporting_leaf : forall (M : Type) (ext : M -> M -> M) cs kind new d m,
+  In (Leaf d true m) cs -> String.prefix kind d = true ->
+  In (d, ext m new) (leaves (update_masks ext (Node cs) kind new)).
+Proof. exact update_masks_hits. Qed.
+Print Assumptions C11_update_masks_hits_reporting_leaf.
+
+(* ---------------------------------------------------------------- never_reported_twice *)
+Theorem C11_never_reported_twice_at :
+  forall (N : Num) hist (tg : target N) tol g m r applied,
+  collapse_at N hist tg tol g (MaSet m) = Ok r ->
+  (forall i, In i applied -> In i m) -> forall i, In i applied -> ~ In i r.
+Proof. exact collapse_at_never_reported_twice. Qed.
+Print Assumptions C11_never_reported_twice_at.
+
+Theorem C11_never_reported_twice_as :
+  forall (N : Num) hist off tol g m r a b,
+  collapse_as N hist off tol g (MsSet m) = Ok r ->
+  In (MPair a b) m \/ In (MInt a) m \/ In (MInt b) m -> ~ In (a, b) r /\ ~ In (b, a) r.
+Proof. exact collapse_as_never_reported_twice. Qed.
+Print Assumptions C11_never_reported_twice_as.
+
+(* a termination reports exactly a non-empty detector result, and only once the history is longer than the look-back *)
+Theorem C11_termination_reports_detector_result_at :
+  forall (N : Num) lg hist (tg : target N) tol g mask r,
+  term_at N lg hist tg tol g mask = Ok (Some r) ->
+  r <> [] /\ collapse_at N hist tg tol g mask = Ok r /\ exists gz, g = Some gz /\ (gz < Z.of_nat lg)%Z.
+Proof. exact term_at_reports. Qed.
+Print Assumptions C11_termination_reports_detector_result_at.
+
+Theorem C11_termination_reports_detector_result_as :
+  forall (N : Num) lg hist off tol g mask r,
+  term_as N lg hist off tol g mask = Ok (Some r) ->
+  r <> [] /\ collapse_as N hist off tol g mask = Ok r /\ exists gz, g = Some gz /\ (gz < Z.of_nat lg)%Z.
+Proof. exact term_as_reports. Qed.
+Print Assumptions C11_termination_reports_detector_result_as.
+
+(* ---------------------------------------------------------------- after_collapse_relation_exact: impose_at *)
+Theorem C11_impose_at_scalar_exact : forall (N : Num) idx (t : T N) (x : list (T N)) d,
+  exists y, impose_at N idx (AtScalar t) x = Ok y /\ length y = length x /\
+    forall i, (In i idx -> i < length x -> nth i y d = t) /\ (~ In i idx -> nth i y d = nth i x d).
+Proof. exact impose_at_scalar_exact. Qed.
+Print Assumptions C11_impose_at_scalar_exact.
+
+Theorem C11_impose_at_list_exact : forall (N : Num) idx (ts x : list (T N)) d,
+  NoDup idx -> length ts = length (filter (fun i => Nat.ltb i (length x)) idx) ->
+  exists y, impose_at N idx (AtList ts) x = Ok y /\ length y = length x /\
+    (forall k, k < length ts -> nth (nth k (filter (fun i => Nat.ltb i (length x)) idx) 0) y d = nth k ts d) /\
+    (forall i, ~ In i idx -> nth i y d = nth i x d).
+Proof. exact impose_at_list_exact. Qed.
+Print Assumptions C11_impose_at_list_exact.
+
+(* error branch: a list target of any other length (except 1) is a numpy shape mismatch *)
+Theorem C11_impose_at_list_mismatch_rejected : forall (N : Num) idx (ts x : list (T N)),
+  length ts <> length (filter (fun i => Nat.ltb i (length x)) idx) -> length ts <> 1 ->
+  impose_at N idx (AtList ts) x = Err ErrValue.
+Proof. exact impose_at_list_mismatch. Qed.
+Print Assumptions C11_impose_at_list_mismatch_rejected.
+
+(* FULL statement "Collapse with CollapseAt(target=list) yields working constraints" is REFUTED: Collapse passes the whole
+   target list with the collapsed SUBSET of indices (known finding list-target-proper-subset; related to F11) *)
+Theorem C11_collapse_list_target_refuted : impose_at NumQ [0] (@AtList NumQ [1%Q; 2%Q]) [5%Q; 6%Q] = Err ErrValue.
+Proof. exact collapse_list_target_witness. Qed.
+Print Assumptions C11_collapse_list_target_refuted.
+
+(* ---------------------------------------------------------------- after_collapse_relation_exact: impose_as *)
+(* FULL statement:  forall pairs x i j, In (i,j) pairs -> i,j in range -> (impose_as pairs) x has x_i = x_j.   REFUTED
+   (tools.connected never merges two groups; known finding unmerged-groups) *)
+Theorem C11_impose_as_ties_refuted :
+  exists (pairs : list (nat * nat)) (x : list Q) (i j : nat),
+    In (i, j) pairs /\ i < length x /\ j < length x /\
+    nth i (apply_groups NumQ (connected pairs) x) 0%Q <> nth j (apply_groups NumQ (connected pairs) x) 0%Q.
+Proof. exact impose_as_ties_refuted_lemma. Qed.
+Print Assumptions C11_impose_as_ties_refuted.
+
+(* PARTIAL: what does hold -- whenever the groups computed by tools.connected are pairwise disjoint, the tie stage makes
+   x_i = x_j exactly for every pair of the mask.  Missing: the general case (refuted above) and the offset stage
+   (x[i] += offset loop; covered by the correspondence only). *)
+Theorem C11_impose_as_ties_partial : forall (N : Num) pairs (x : list (T N)),
+  groups_disjoint (connected pairs) = true ->
+  forall i j, In (i, j) pairs -> i < length x -> j < length x ->
+    (forall g, In g (connected pairs) -> fst g < length x) ->
+    nth i (apply_groups N (connected pairs) x) (zero N) = nth j (apply_groups N (connected pairs) x) (zero N).
+Proof. exact impose_as_ties_partial. Qed.
+Print Assumptions C11_impose_as_ties_partial.
+
+(* CollapseAs(offset=True) in a solver: the boolean is handed to impose_as as the offset: x_j = x_i + 1 (known finding) *)
+Theorem C11_offset_true_imposes_plus_one_refuted : impose_as NumQ [(0, 1)] 1%Q [5%Q; 8%Q] = Some [5%Q; (5 + 1)%Q].
+Proof. exact offset_true_witness. Qed.
+Print Assumptions C11_offset_true_imposes_plus_one_refuted.
+
+(* ---------------------------------------------------------------- composition with other collapses *)
+(* Collapse composes  c0 o I(r1) o ... o I(rn): the newest round acts first.  A relation established by any round holds
+   for every vector the composed constraints return PROVIDED every transformation applied after it (the OLDER rounds and
+   the base constraints) preserves it. *)
+Theorem C11_compose_rounds_preserves : forall (V : Type) (Rel : V -> Prop) (c0 : xform V) (before : list (xform V)) (I : xform V) (after : list (xform V)),
+  (forall x, Rel (I x)) ->
+  Forall (fun J => forall x, Rel x -> Rel (J x)) before ->
+  (forall x, Rel x -> Rel (c0 x)) ->
+  forall x, Rel (compose_rounds V c0 (before ++ I :: after) x).
+Proof. exact compose_rounds_older_relation. Qed.
+Print Assumptions C11_compose_rounds_preserves.
+
+(* frame conditions that give the preservation hypotheses: not writing i keeps x_i = t; not writing i, j keeps x_i = x_j *)
+Theorem C11_frame_keeps_fixed : forall (N : Num) W I i (t : T N), frames N W I -> ~ In i W -> forall x, fixed_at N i t x -> fixed_at N i t (I x).
+Proof. exact frames_keep_fixed. Qed.
+Print Assumptions C11_frame_keeps_fixed.
+Theorem C11_frame_keeps_tied : forall (N : Num) W I i j, frames N W I -> ~ In i W -> ~ In j W -> forall x, tied N i j x -> tied N i j (I x).
+Proof. exact frames_keep_tied. Qed.
+Print Assumptions C11_frame_keeps_tied.
+Theorem C11_impose_at_frames : forall (N : Num) idx (t : T N), frames N idx (at_xform N idx t).
+Proof. exact at_xform_frames. Qed.
+Print Assumptions C11_impose_at_frames.
+
+(* CollapseAt-only terminations: the mask makes the index sets of the rounds pairwise disjoint, and then EVERY applied
+   relation x_i = t_k holds for every vector returned by the composed constraints, for any number of rounds *)
+Theorem C11_after_collapse_relation_exact_at_only :
+  forall (N : Num) (c0 : list (T N) -> list (T N)) (rs : list (list nat * T N)),
+  NoDup (all_indices N rs) ->
+  frames N nil c0 \/ (forall x j, In j (all_indices N rs) -> nth j (c0 x) (zero N) = nth j x (zero N)) ->
+  forall x k idx t i, nth_error rs k = Some (idx, t) -> In i idx -> i < length x ->
+    fixed_at N i t (compose_rounds _ c0 (rounds_xforms N rs) x).
+Proof. exact at_only_all_rounds_exact. Qed.
+Print Assumptions C11_after_collapse_relation_exact_at_only.
+
+(* FULL statement "the relation of every applied collapse holds for every later candidate, whatever else was collapsed" is
+   REFUTED: an older CollapseAs round (x1 := x0) acts after a newer CollapseAt round (x1 := 0) and overwrites it
+   (known finding relation-overwritten-by-other-collapse) *)
+Theorem C11_compose_overwrites_refuted :
+  exists (older newest : xform (list Q)) (x : list Q),
+    (forall y, 1 < length y -> fixed_at NumQ 1 0%Q (newest y)) /\
+    ~ fixed_at NumQ 1 0%Q (compose_rounds _ (fun y => y) [older; newest] x).
+Proof. exact compose_overwrites_refuted_lemma. Qed.
+Print Assumptions C11_compose_overwrites_refuted.
+
+(* ---------------------------------------------------------------- collapse_loop_terminates *)
+(* state machine of the outer loop of _Solve; the inner solve and Collapse's effect on the solver are arbitrary (Section
+   variables); the only hypothesis is what the detector theorems provide: reported collapses are unmasked candidates *)
+Theorem C11_collapse_round_decreases_measure :
+  forall (St C : Type) (ceq : forall a b : C, {a = b} + {a <> b}) (U : list C) (inner : St -> list C -> St * list C),
+  (forall s m c, In c (snd (inner s m)) -> In c U /\ ~ In c m) ->
+  forall s m, snd (inner s m) <> [] -> unmasked C ceq U (extend_mask m (snd (inner s m))) < unmasked C ceq U m.
+Proof. exact collapse_round_decreases. Qed.
+Print Assumptions C11_collapse_round_decreases_measure.
+
+Theorem C11_collapse_loop_terminates :
+  forall (St C : Type) (ceq : forall a b : C, {a = b} + {a <> b}) (U : list C)
+         (inner : St -> list C -> St * list C) (apply : St -> list C -> St),
+  (forall s m c, In c (snd (inner s m)) -> In c U /\ ~ In c m) ->
+  forall fuel s m, unmasked C ceq U m < fuel ->
+  exists s' m' k, solve_loop St C inner apply fuel s m = Some (s', m', k) /\ k <= unmasked C ceq U m /\
+                  (forall c, In c m -> In c m') /\ exists s0, inner s0 m' = (s', []).
+Proof. exact collapse_loop_terminates. Qed.
+Print Assumptions C11_collapse_loop_terminates.
+
+Theorem C11_collapse_loop_terminates_within_candidates :
+  forall (St C : Type) (ceq : forall a b : C, {a = b} + {a <> b}) (U : list C)
+         (inner : St -> list C -> St * list C) (apply : St -> list C -> St),
+  (forall s m c, In c (snd (inner s m)) -> In c U /\ ~ In c m) ->
+  forall s m, exists s' m' k, solve_loop St C inner apply (S (length U)) s m = Some (s', m', k) /\ k <= length U.
+Proof. exact collapse_loop_terminates_within_candidates. Qed.
+Print Assumptions C11_collapse_loop_terminates_within_candidates.
+
+(* ---------------------------------------------------------------- non-vacuity *)
+Example C11_detector_example :
+  collapse_at NumQ [[1; 2; 5]; [1; 3; 5]; [1; 2; 5 + (1 # 8)]]%Q (@TNone NumQ) (1 # 8)%Q None (MaSet [2]) = Ok [0] /\
+  collapse_at NumQ [[1; 2; 5]; [1; 3; 5]; [1; 2; 5 + (1 # 8)]]%Q (@TNone NumQ) (1 # 8)%Q None MaNone = Ok [0; 2] /\
+  collapse_as NumQ [[1; 1; 5]; [2; 2; 5]]%Q false 0%Q (Some 1%Z) (MsSet [MInt 2]) = Ok [(0, 1)] /\
+  term_at NumQ 3 [[1; 2]; [1; 3]; [1; 4]]%Q (@TScalar NumQ 1%Q) 0%Q (Some 2%Z) MaNone = Ok (Some [0]) /\
+  term_at NumQ 2 [[1; 2]; [1; 3]]%Q (@TScalar NumQ 1%Q) 0%Q (Some 2%Z) MaNone = Ok None.
+Proof. exact detector_example. Qed.
+
+Example C11_loop_example :
+  let inner := fun (s : nat) (m : list nat) =>
+     (S s, match filter (fun c => negb (memb c m)) [0; 1; 2] with [] => [] | c :: _ => [c] end) in
+  solve_loop nat nat inner (fun s _ => s) 4 0 [] = Some (4, [0; 1; 2], 3).
+Proof. exact loop_example. Qed.
